@@ -32,7 +32,6 @@ var (
 	errTooBig    = errors.New("mat: resulting data slice too big")
 	errTooSmall  = errors.New("mat: input slice too small")
 	errBadBuffer = errors.New("mat: data buffer size mismatch")
-	errBadSize   = errors.New("mat: invalid dimension")
 )
 
 // Type encoding scheme:
@@ -167,7 +166,7 @@ func (m *Dense) UnmarshalBinary(data []byte) error {
 		return errWrongType
 	}
 	if rows < 0 || cols < 0 {
-		return errBadSize
+		return ErrShape
 	}
 	if rows == 0 || cols == 0 {
 		return ErrZeroLength
@@ -224,7 +223,7 @@ func (m *Dense) UnmarshalBinaryFrom(r io.Reader) (int, error) {
 		return n, errWrongType
 	}
 	if rows < 0 || cols < 0 {
-		return n, errBadSize
+		return n, ErrShape
 	}
 	if rows == 0 || cols == 0 {
 		return n, ErrZeroLength
@@ -362,7 +361,7 @@ func (v *VecDense) UnmarshalBinary(data []byte) error {
 		return ErrZeroLength
 	}
 	if n < 0 {
-		return errBadSize
+		return ErrShape
 	}
 	if n > maxElems {
 		return errTooBig
@@ -411,7 +410,7 @@ func (v *VecDense) UnmarshalBinaryFrom(r io.Reader) (int, error) {
 		return n, ErrZeroLength
 	}
 	if l < 0 {
-		return n, errBadSize
+		return n, ErrShape
 	}
 	if l > maxElems {
 		return n, errTooBig
